@@ -1852,7 +1852,7 @@ func TestCheck(t *testing.T) {
 			"calls that return an error are not judged here (C29)", "POSIX name semantics only (no case-folding personality)"},
 		Real:    []string{"Worktree.Checkout (Force) / Worktree.Reset (HardReset)", "resetIndex, resetWorktreeToTree, checkoutChange, checkoutFile", "merkletrie filesystem/index noders", "storage/filesystem"},
 		Stub:    []string{"disk (simfs) with fault ordinals", "clock (simfs manual clock)"},
-		Runs:    map[string]int{"quick": 4000, "thorough": 80000},
+		Runs:    map[string]int{"quick": 4000, "thorough": 20000},
 		NewPlan: func() any { return &Plan{} },
 		Gen:     genPlan,
 		Expand:  expand,
